@@ -556,7 +556,7 @@ func runWeighted(run *core.Run) {
 		run.Rule = "G1 random models; outcome (verdict, canonical weights and wildcard sets) compared across repeated builds, hook-enumerated start orders, permutations of type definitions and of union/intersection operands, and concurrent builds under the race detector; non-trivial = >=2 schedules observed for the model; distinct by model text"
 	case "C10":
 		n, o = run.N(30000, 600000), wgOpts{builds: 2, maxOrders: 0}
-		run.Rule = "G1 random models with duplicated / mixed conditioned restrictions, repeated operands and nested operators; the real graph is walked simultaneously with the reference structure (nodes, node types, labels, edge order, edge kinds, tupleset labels, ordered condition sets) and the model is snapshotted before / compared after Build; non-trivial = accepted with >=1 operator node; distinct by model text"
+		run.Rule = "G1 random models with duplicated / mixed conditioned restrictions, repeated operands and nested operators; the real graph is walked simultaneously with the reference structure (nodes, node types, labels, edge order, edge kinds, tupleset labels, ordered condition sets) and the model is snapshotted before / compared after Build; plus models without the one-`this` / distinct-TTU constraint, structure only; non-trivial = accepted with >=1 operator node; distinct by model text"
 	case "C11":
 		n, o = run.N(12000, 300000), wgOpts{builds: run.N(3, 6), maxOrders: run.N(24, 120)}
 		run.Rule = "G1 random models with wildcard restrictions planted everywhere; wildcard lists of every node and edge of every accepted build (repeated builds and hook-enumerated start orders) compared as sets with plain reachability of T:* in R1, duplicates flagged; non-trivial = accepted with >=1 wildcard node; distinct by model text"
@@ -598,9 +598,44 @@ func runWeighted(run *core.Run) {
 		raceRun(run, "c06", run.N(150, 1500), run.N(1, 4))
 	}
 	if run.Prop == "C10" {
+		// models without the generator's one-`this`/distinct-TTU constraint (only JSON / protobuf can carry them): the same
+		// direct assignment or tuple-to-userset twice under one operator still yields one edge per distinct target.
+		// Structure only - "operand" is not defined for weights once two operands share their edges (DESIGN 7-b).
+		nf := run.N(8000, 150000)
+		core.Parallel(nf, func(i int) {
+			r := run.Rng("wg-free", i)
+			m := gen.Model(r, gen.ModelOpt{Conditions: true, Shapes: true, FreeThis: true, MaxRel: 2 + i%3})
+			checkStructureOnly(run, m)
+		})
 		// the structure must also come out right when one model / one builder value is used by many goroutines
 		raceRun(run, "c06", run.N(60, 600), run.N(1, 2))
 	}
+}
+
+func checkStructureOnly(run *core.Run, m *openfgav1.AuthorizationModel) {
+	c := &core.Case{Kind: "model-structure", Model: modelJSON(m)}
+	run.Guard(c, func() {
+		R := ref.Build(m, false)
+		if R.Invalid != "" {
+			return
+		}
+		g, err := graph.NewWeightedAuthorizationModelGraphBuilder().Build(m)
+		run.Eval(1)
+		if err != nil || g == nil {
+			run.Count("unconstrained_models_rejected", 1)
+			return
+		}
+		run.Count("unconstrained_models_walked", 1)
+		for _, d := range ref.CompareWeighted(g, R, true) {
+			if d.Aspect == "structure" {
+				run.Violation("structure", c, "graph structure of the reference model", d.Msg+"\n"+gen.PPModel(m))
+				return
+			}
+		}
+		if countOps(R) > 0 {
+			run.NonTrivial(c.Model)
+		}
+	})
 }
 
 // witnessModels are the concrete inputs of the defects found during design (DESIGN §6): replayed on every run.
@@ -723,6 +758,10 @@ func replayWeighted(run *core.Run, c *core.Case) {
 	m, err := modelFromJSON(c.Model)
 	if err != nil {
 		fmt.Println("cannot load model:", err)
+		return
+	}
+	if c.Kind == "model-structure" {
+		checkStructureOnly(run, m)
 		return
 	}
 	checkWeightedModel(run, m, run.Rng("replay", 0), wgOpts{builds: 8, maxOrders: 720, typePerms: 4, opndPerms: 4})
